@@ -55,6 +55,7 @@ def gen_script(rng, nclients=None, policy=None, track=None, auth=None, length=No
                                                                                  " mismatch=%d" % mismatch if mismatch is not None else ""),
              "start", "sframe 0 10"]
     wd = World()
+    seq = [0]
     quick = [False]
     connected = {}            # slot -> dict(authorized)
     stalled = {}              # slot -> remaining steps in which the update channel is held
@@ -68,7 +69,13 @@ def gen_script(rng, nclients=None, policy=None, track=None, auth=None, length=No
             lines.append("authorize %d" % c)
             connected[c]["authorized"] = True
         if proto:
-            # the client sends its protocol hash in its first connected frame; the server decides when it arrives
+            # the client sends its protocol hash in its first connected frame; the server decides when it arrives.  Game logic may
+            # write client events in that very frame, also ones that cannot be sent (an entity the server does not know)
+            if events and rng.random() < 0.35:
+                seq[0] += 1
+                ty_ = rng.choice(["CEM", "CE0", "CT"])
+                ent_ = " r%d" % rng.randrange(1, 9) if (ty_ == "CEM" or (ty_ == "CT" and rng.random() < 0.6)) else ""
+                lines.append("cop %d ev %s %d%s" % (c, ty_, seq[0], ent_))
             lines.append("cframe %d" % c)
             if rng.random() < 0.8:
                 lines.append("deliver %d c2s 1 all" % c)
@@ -191,7 +198,6 @@ def gen_script(rng, nclients=None, policy=None, track=None, auth=None, length=No
                 lines.append("sop mutate %d %d=%s" % (e, k, v))
 
     wd.used_pre = set()
-    seq = [0]
     for _ in range(length):
         choices = [("sop", w["sop"]), ("sframe", w["sframe"]), ("cframe", w["cframe"]), ("deliver", w["deliver"]), ("drop", w["drop"]), ("session", w["session"]),
                    ("sev", w["sev"]), ("cev", w["cev"]), ("edeliver", w["edeliver"])]
